@@ -38,13 +38,15 @@ class Outcome:
 
 
 class Explorer:
-    def __init__(self, func, atom_of=None, tracked=None, max_states=40000, follow_implicit_exc=False, frozen=None):
+    def __init__(self, func, atom_of=None, tracked=None, max_states=40000, follow_implicit_exc=False, frozen=None, track_locals=True):
         self.func = func
         self.repo = func.module._repo
         self.cfg = func.cfg
         self.atom_of = atom_of or (lambda e: None)
         self.tracked = set(tracked or ())
         self.frozen = set(frozen or ())
+        if track_locals:
+            self.tracked |= set(func.locals) - set(func.aliases)
         self.max_states = max_states
         self.follow_implicit_exc = follow_implicit_exc
         self.unknown_tests = []       # tests that evaluated to UNKNOWN (for diagnostics)
@@ -136,6 +138,12 @@ class Explorer:
                     return False
                 left = right
             return res
+        if isinstance(e, ast.Slice):
+            lo = self.ev(e.lower, env) if e.lower is not None else None
+            hi = self.ev(e.upper, env) if e.upper is not None else None
+            if lo is UNKNOWN or hi is UNKNOWN or e.step is not None:
+                return UNKNOWN
+            return slice(lo, hi)
         if isinstance(e, ast.Subscript):
             v = self.ev(e.value, env)
             i = self.ev(e.slice, env)
@@ -230,9 +238,10 @@ class Explorer:
         return env
 
     # ------------------------------------------------------------- explore
-    def run(self, start, env, stop=None, watch=None, start_label=None):
+    def run(self, start, env, stop=None, watch=None, start_label=None, probes=None):
         """Explore from `start` (node) with valuation env. Returns list of Outcome."""
         watch = watch or {}
+        probes = probes or {}
         outcomes = []
         seen = set()
         stack = [(start, dict(env), frozenset(), (), start_label)]
@@ -251,6 +260,13 @@ class Explorer:
             path = path + (node,)
             if node.id in watch:
                 events = events | {watch[node.id]}
+            if node.id in probes:
+                name, fn = probes[node.id]
+                try:
+                    val = fn(self, env)
+                except Exception:
+                    val = UNKNOWN
+                events = events | {(name, "U" if val is UNKNOWN else val)}
             if node is g.exit:
                 ret = None
                 for p in reversed(path):
@@ -294,6 +310,26 @@ class Explorer:
                     elif l == "exc" and self.follow_implicit_exc:
                         stack.append((b, env, events, path, None))
                 continue
+            if node.kind == "for":
+                seq = self.ev(node.ast.iter, env)
+                if seq is not UNKNOWN and isinstance(seq, (tuple, list)):
+                    ik = "__iter__%d" % node.id
+                    idx = env.get(ik, 0)
+                    env2 = dict(env)
+                    if idx < len(seq):
+                        env2[ik] = idx + 1
+                        for tt, vv in _bind(node.ast.target, seq[idx]):
+                            k = self.key_of(tt)
+                            if k is not None:
+                                env2[k] = vv
+                        lab = "true"
+                    else:
+                        env2.pop(ik, None)
+                        lab = "false"
+                    for b, l in node.out:
+                        if l == lab:
+                            stack.append((b, env2, events, path, None))
+                    continue
             env2 = self.apply(node, env)
             explicit_raise = node.kind == "stmt" and (isinstance(node.ast, ast.Raise) or node.raised is not None)
             for b, l in node.out:
@@ -313,6 +349,18 @@ def _pairs(target, value):
         else:
             for t in target.elts:
                 yield from _pairs(t, None)
+    else:
+        yield target, value
+
+
+def _bind(target, value):
+    if isinstance(target, (ast.Tuple, ast.List)):
+        if isinstance(value, (tuple, list)) and len(value) == len(target.elts):
+            for t, v in zip(target.elts, value):
+                yield from _bind(t, v)
+        else:
+            for t in target.elts:
+                yield from _bind(t, UNKNOWN)
     else:
         yield target, value
 
